@@ -150,8 +150,6 @@ Proof.
   - rewrite <- IH. destruct r; reflexivity.
 Qed.
 
-Definition canonb (s : str) : bool := is_nil s || forallb plain_comp (split_on SL s).
-
 Lemma canonb_fields s : canonb s = true -> s <> [] -> Forall comp_ok (split_on SL s).
 Proof.
   unfold canonb. intros H Hne. destruct s as [|c s]; [congruence|]. simpl in H.
